@@ -84,6 +84,11 @@ func (l *successorConstraintImpl) EstimateIsViolated(
 		if disallowed := modelImpl.disallowedSuccessors[stop.Index()][nextModelStop.Index()]; disallowed {
 			return true, noPositionsHint()
 		}
+		// the stop must be allowed behind the stop it is placed after as well
+		previousModelStop := stopPosition.Previous().ModelStop()
+		if disallowed := modelImpl.disallowedSuccessors[previousModelStop.Index()][stop.Index()]; disallowed {
+			return true, noPositionsHint()
+		}
 	}
 	return false, noPositionsHint()
 }
